@@ -675,6 +675,17 @@ func modesWithDefaults(seed uint64, n int, meta *Meta) {
 			dcase{&GSchema{HasTypes: true, Types: []string{"object"}, Props: map[string]*GSchema{"shapes": {HasTypes: true, Types: []string{"array"}, Items: &GSchema{OneOf: []*GSchema{open, closed}}}}},
 				`{"shapes":[{"kind":"a"},{"kind":"triangle"}]}`, asResp})
 	}
+	// a branch that requires a property which has a default: the default is filled in before the requirement is
+	// checked, in every mode and under every composition keyword
+	reqDef := &GSchema{HasTypes: true, Types: []string{"object"}, Required: []string{"kind", "extra"}, Props: map[string]*GSchema{"kind": kind("a"), "extra": {HasTypes: true, Types: []string{"integer"}, Default: 1.0}}}
+	for _, asResp := range []bool{false, true} {
+		for _, body := range []string{`{"kind":"a"}`, `{"kind":"a","extra":2}`, `{"kind":"b"}`, `{"kind":"zzz"}`} {
+			cases = append(cases, dcase{&GSchema{AnyOf: []*GSchema{reqDef, closed}}, body, asResp}, dcase{&GSchema{AnyOf: []*GSchema{closed, reqDef}}, body, asResp},
+				dcase{&GSchema{OneOf: []*GSchema{reqDef, closed}}, body, asResp}, dcase{&GSchema{AllOf: []*GSchema{reqDef}}, body, asResp}, dcase{&GSchema{Not: reqDef}, body, asResp},
+				dcase{&GSchema{HasTypes: true, Types: []string{"array"}, Items: &GSchema{AnyOf: []*GSchema{reqDef, closed}}}, "[" + body + "]", asResp},
+				dcase{&GSchema{HasTypes: true, Types: []string{"object"}, Props: map[string]*GSchema{"in": {AnyOf: []*GSchema{reqDef, closed}}, "out": {Not: reqDef}}}, `{"in":` + body + `}`, asResp})
+		}
+	}
 	for _, d := range c13Directed() {
 		if d.BodySchema != nil && d.Body != "" && !d.Skip {
 			cases = append(cases, dcase{d.BodySchema, d.Body, false}, dcase{d.BodySchema, d.Body, true})
